@@ -72,7 +72,7 @@ def LowRankT.transform {n k : Nat} (t : LowRankT α n k) : Transform α n where
 /-! ### one leapfrog step in the whitened space -/
 
 /-- whitened phase point: position `y`, velocity `v`, gradient of `logp` w.r.t. `y` -/
-structure Phase (α : Type) (n : Nat) where
+structure PhasePt (α : Type) (n : Nat) where
   y : Vec α n
   v : Vec α n
   gy : Vec α n
@@ -96,7 +96,7 @@ def posStep (k : Kinetic) (eps : α) (y v : Vec α n) : Vec α n × Vec α n :=
 
 /-- `TransformedHamiltonian::leapfrog` (without the divergence test): `gradX` is ∇logp in the
     original coordinates; `eps = ± step_size · factor`. -/
-def leapfrog (T : Transform α n) (gradX : Vec α n → Vec α n) (k : Kinetic) (eps : α) (p : Phase α n) : Phase α n :=
+def leapfrog (T : Transform α n) (gradX : Vec α n → Vec α n) (k : Kinetic) (eps : α) (p : PhasePt α n) : PhasePt α n :=
   let v1 := velHalf k eps p.y p.gy p.v
   let (y', v2) := posStep k eps p.y v1
   let gy' := T.gradY (gradX (T.toX y'))
